@@ -107,6 +107,14 @@ fn check_state(
 		);
 		return false;
 	}
+	// the Merkle proofs the node serves for unspent outputs verify against the reference output root
+	match vcommon::snapshot::merkle_proof_probe(chain, &st, prng, 3) {
+		Ok(n) => run.count("merkle_proofs_of_unspent_outputs_verified", n),
+		Err(e) => {
+			run.violation(&format!("C02;{};merkle_proof_of_unspent_output", ctx), &e, replay.clone());
+			return false;
+		}
+	}
 	// validate_inputs probes: a few unspent and a few spent / foreign coins
 	let mut coins: Vec<_> = h.coins.values().cloned().collect();
 	coins.sort_by(|a, b| a.commit.0.cmp(&b.commit.0));
